@@ -164,9 +164,11 @@ static void do_chacha(const ev::Cmd& c) {
     Bytes out(3, 0xEE), out2(5, 0xEE);   // pre-filled with junk of a wrong size: apply must size the output itself
     crypto::ChaCha20::apply(key, nonce, inp, out, ctr);
     crypto::ChaCha20::apply(key, nonce, out, out2, ctr);
+    Bytes inpl = inp;                    // the input span may view the output vector itself (encrypting a buffer in place)
+    crypto::ChaCha20::apply(key, nonce, inpl, inpl, ctr);
     ev::Ev e("chacha");
     e.i("src", g_line).raw("key", jbytes(kb)).raw("nonce", jbytes(nb)).ints("ctr", {static_cast<long long>(ctr >> 16), static_cast<long long>(ctr & 0xFFFFu)})
-        .raw("inp", jbytes(inp)).raw("out", jbytes(out)).raw("out2", jbytes(out2)).emit();
+        .raw("inp", jbytes(inp)).raw("out", jbytes(out)).raw("out2", jbytes(out2)).raw("inpl", jbytes(inpl)).emit();
 }
 static void do_encwk(const ev::Cmd& c) {
     const Bytes kb = unhex(c.s("key")), cb = unhex(c.s("cid")), pt = unhex(c.s("pt"));
